@@ -92,6 +92,7 @@ package core
 // only when no unknown content was seen, nothing failed and the transition
 // was not cancelled.
 //@ func (*transitioner).removeDirectory
+//@   mutates
 //@   requires t != nil && expected != nil
 //@   at call (*Directory).OpenDirectory assert[handle] arg0 == parent && arg1 == name
 //@   at call (*transitioner).removeFile assert[planned] arg1 == directory && arg2 == contentName && has(expected.Contents, contentName) && arg4 == expected.Contents[contentName] && arg4.Kind == EntryKind_File
